@@ -532,10 +532,24 @@ func (g *Gen) genAbs(at *Type, depth int) Expr {
 		return &Builtin{Name: name, Args: []Expr{g.genAbs(at, depth-1), g.genAbs(at, depth-1)}, Ty: at}
 	default:
 		ops := []string{"+", "-", "*", "/", "%"}
-		if at == AbsFloat {
+		if at == AbsFloat || g.noAbsIntDivMod {
 			ops = []string{"+", "-", "*"}
 		}
 		op := ops[g.R.Intn(len(ops))]
+		if at == AbsFloat && g.on("abstract.mixed") && g.R.Chance(1, 3) {
+			// an abstract-int operand (a negation, a parenthesised sum, rarely a bare literal) next to an abstract-float
+			// one: the integer side is converted, and the operator keeps its operand order
+			g.feat("abstract.mixed")
+			old := g.noAbsIntDivMod
+			g.noAbsIntDivMod = !g.on("abstract.mixed-int-divmod")
+			in := &Materialize{X: g.genAbs(AbsInt, max(1, depth-1)), Ty: AbsFloat}
+			g.noAbsIntDivMod = old
+			fl := g.genAbs(AbsFloat, depth-1)
+			if g.R.Bool() {
+				return &Binary{Op: op, L: in, R: fl, Ty: at}
+			}
+			return &Binary{Op: op, L: fl, R: in, Ty: at}
+		}
 		return &Binary{Op: op, L: g.genAbs(at, depth-1), R: g.genAbs(at, depth-1), Ty: at}
 	}
 }
